@@ -38,6 +38,11 @@ BAD_LENGTHS = [b'-1', b'-0', b'0', b'-7', b'abc', b'1.5', b'1e3', b'0x10',
                b'9' * 30, b'9' * 5000, b'1_0', b'007', b'/']
 
 
+HUGE = [b'2147483647', b'2147483648', b'4294967295', b'4294967296',
+        b'9223372036854775807', b'9223372036854775808',
+        b'18446744073709551616']
+
+
 def same(a, b):
     return common.diff_records([a], [b]) is None
 
@@ -199,7 +204,8 @@ def f8a_shape(present, nl, indent):
             len(tail) <= indent and tail.strip(b' ') == b'')
 
 
-def judge(recs, exc, short, neg, intact, case, obs, label, shape=None):
+def judge(recs, exc, short, neg, intact, case, obs, label, shape=None,
+          swallow=None):
     """Prefix relation + error family."""
     if exc is not None and not common.is_parse_error(exc):
         obs.violation('%s:non_parse_exception:%s' % (
@@ -220,6 +226,11 @@ def judge(recs, exc, short, neg, intact, case, obs, label, shape=None):
                 a, b = intact[i][content_key[0]], r[content_key[0]]
                 if common.strict_equal(a, b):
                     rel = 'content_complete'
+                elif swallow is not None and swallow[0] == i and \
+                        common.strict_equal(b, swallow[1]):
+                    # F8c: everything up to the end of the file was taken
+                    # as this section's content
+                    rel = 'content_is_rest_of_file'
                 elif (isinstance(a, (bytes, str)) and type(a) is type(b) and
                       a.startswith(b)):
                     # F8a is specifically a cut that leaves content ENDING in
@@ -309,9 +320,51 @@ def check_file(data, layout, obs, tag, rng=None, cut_stride=1):
                 variants.append((b'%d' % (sec['clen'] - d), 'minus'))
         for b in BAD_LENGTHS:
             variants.append((b, 'bad'))
+        if b'indent=' in header:
+            # damage that hits two fields with the same value
+            for b in HUGE:
+                variants.append((b, 'pair'))
+        for b in HUGE:
+            variants.append((b, 'huge'))
         for val, vkind in variants:
             new_header = re.sub(br'length=[^,\r\n]+', b'length=' + val,
                                 header, count=1)
+            if vkind == 'pair':
+                # outside the property's damage model (two fields hit): the
+                # only demand is the error family
+                new_header = re.sub(br'indent=[^,\r\n]+', b'indent=' + val,
+                                    new_header, count=1)
+                mutated = (data[:sec['hoff']] + new_header +
+                           data[sec['coff']:])
+                recs, exc, _s, _n = run_reader(mutated)
+                obs.count('length_perturbations')
+                obs.count('length:pair_with_indent')
+                obs.case((fid, idx, val, 'pair'), nontrivial=True)
+                if exc is not None and not common.is_parse_error(exc):
+                    obs.violation('length_and_indent_damaged:non_parse_'
+                                  'exception:%s' % common.exc_mechanism(exc),
+                                  {'file': mutated}, repr(exc)[:200])
+                continue
+            if vkind == 'huge':
+                # a non-negative integer far beyond the data present
+                mutated = (data[:sec['hoff']] + new_header +
+                           data[sec['coff']:])
+                delta = len(new_header) - len(header)
+                recs, exc, _s, _n = run_reader(mutated)
+                obs.count('length_perturbations')
+                obs.count('length:huge')
+                obs.case((fid, idx, val, 'huge'), nontrivial=True)
+                short = [False] * len(layout)
+                short[idx] = True
+                rest = mutated[sec['coff'] + delta:]
+                ok_rest, want_rest = expected_from_slice(sec, rest)
+                case = {'file': data, 'section_index': idx, 'length': val,
+                        'label': 'length_exceeds_data', 'strong': True}
+                judge(recs, exc, short, False, intact, case, obs,
+                      'length_plus' if is_last else 'length_exceeds_data',
+                      swallow=(idx, want_rest) if ok_rest and not is_last
+                      else None)
+                continue
             mutated = (data[:sec['hoff']] + new_header +
                        data[sec['coff']:])
             delta = len(new_header) - len(header)
@@ -378,7 +431,22 @@ def gen_file(rng, small=True):
     doc = recipe.gen_doc(rng, max_changes=2, max_files=2, enc_p=0.35)
     r = rng.random()
     style = None
-    if r < 0.25:
+    if r < 0.2:
+        # canonical otherwise, but with long producer options (commit /
+        # blob ids): header lines of 97..400 bytes, so that cuts fall on
+        # every offset of long headers, incl. multiples of the reader's
+        # read-ahead block, and leave a well-formed shorter header behind
+        def extra(index, sid, pairs):
+            if index > 0 and rng.random() < 0.6:
+                pairs = pairs + [('x-id', '%0*x' % (rng.choice(
+                    [40, 64, 90, 130, 200, 320]), rng.getrandbits(160)))]
+                if rng.random() < 0.5:
+                    pairs = pairs + [('z-parent', 'p' * rng.choice(
+                        [30, 70, 96, 150]))]
+            return pairs
+        data, layout = serialize(doc, Style(rng=rng, extra=extra))
+        return doc, data, layout
+    if r < 0.4:
         recipe.annotate_droppable(doc)
         style = Style(rng=rng, shuffle=True, blank=rng.choice([0, 0, 2]),
                       crlf_headers=rng.random() < 0.3,
@@ -502,5 +570,26 @@ def replay(case, obs):
             short[case['section_index']] = True
         if not case.get('strong', True):
             recs = recs[:case['section_index']]
-        judge(recs, exc, short, neg, intact, case, obs,
-              case.get('label', 'length_bad'))
+        swallow = None
+        label = case.get('label', 'length_bad')
+        if label == 'length_exceeds_data':
+            from mon.oracle.newline import newline_bytes, detect_kind_bytes
+            i = case['section_index']
+            is_last = i == len(secs) - 1
+            try:
+                codec = sec.get('codec')
+                kind = sec['options'].get('line_endings') or \
+                    detect_kind_bytes(sec['raw'], codec)
+                view = dict(sec, nl=newline_bytes(kind, codec))
+                ok, want = expected_from_slice(
+                    view, mutated[hend + len(new_header) - len(header):])
+                if ok and not is_last:
+                    swallow = (i, want)
+            except Exception:
+                pass
+            short = [False] * len(secs)
+            short[i] = True
+            if is_last:
+                label = 'length_plus'
+        judge(recs, exc, short, neg, intact, case, obs, label,
+              swallow=swallow)
